@@ -870,12 +870,12 @@ func (c *rpcCsvCase) coq() string {
 // ---------------------------------------------------------------- fake electrum
 
 type eAns struct {
-	HistErr bool      `json:"hist_err,omitempty"`
+	HistErr bool       `json:"hist_err,omitempty"`
 	Hist    [][2]int64 `json:"hist"` // kind (0 nil,1 bad hash,2 other,3 match), height
-	RawErr  bool      `json:"raw_err,omitempty"`
-	Raw     int64     `json:"raw"`
-	Cb      int       `json:"cb"` // 0 nil, 1 ErrSwapDoesNotExist, 2 other error
-	TruthH  int64     `json:"true_tx_height"`
+	RawErr  bool       `json:"raw_err,omitempty"`
+	Raw     int64      `json:"raw"`
+	Cb      int        `json:"cb"` // 0 nil, 1 ErrSwapDoesNotExist, 2 other error
+	TruthH  int64      `json:"true_tx_height"`
 }
 
 func (a *eAns) coq() string {
@@ -1034,9 +1034,11 @@ func (f *fakeElectrum) GetRawTransaction(ctx context.Context, txHash string) (st
 func (f *fakeElectrum) BroadcastTransaction(ctx context.Context, rawTx string) (string, error) {
 	return "", errFakeRpc
 }
-func (f *fakeElectrum) GetFee(ctx context.Context, target uint32) (float32, error) { return 0, errFakeRpc }
-func (f *fakeElectrum) Ping(ctx context.Context) error                             { return nil }
-func (f *fakeElectrum) Reboot(ctx context.Context) error                           { return nil }
+func (f *fakeElectrum) GetFee(ctx context.Context, target uint32) (float32, error) {
+	return 0, errFakeRpc
+}
+func (f *fakeElectrum) Ping(ctx context.Context) error   { return nil }
+func (f *fakeElectrum) Reboot(ctx context.Context) error { return nil }
 
 // cbResult: the swap service's answer for this swap in the current step
 func (f *fakeElectrum) cbResult(swapTok int64) error {
